@@ -33,6 +33,14 @@ func (g *GRPCExpr) ServiceFor(s *ServiceExpr) *GRPCServiceExpr {
 	return res
 }
 
+// Prepare initializes the API level error responses (they are copied to the
+// endpoints that define the corresponding errors).
+func (g *GRPCExpr) Prepare() {
+	for _, er := range g.Errors {
+		er.Response.Prepare()
+	}
+}
+
 // EvalName returns the name printed in case of evaluation error.
 func (*GRPCExpr) EvalName() string {
 	return "API GRPC"
